@@ -21,6 +21,10 @@ func init() {
 		"verifU32":  func(fr *frame, a []Value) Value { return fr.x.nondet(a[0], 32, "u32") },
 		"verifU64":  func(fr *frame, a []Value) Value { return fr.x.nondet(a[0], 64, "u64") },
 		"verifInt":  func(fr *frame, a []Value) Value { return fr.x.nondet(a[0], 64, "int") },
+		// a []byte of (possibly symbolic) length n whose content is never touched
+		"verifVirtualBytes": func(fr *frame, a []Value) Value {
+			return Slice{virt: fr.x.to64(a[0].(*Term), true)}
+		},
 		"verifBool": func(fr *frame, a []Value) Value { return fr.x.nondet(a[0], 0, "bool") },
 		"verifChoose": func(fr *frame, a []Value) Value {
 			x := fr.x
